@@ -779,22 +779,22 @@ theorem ownerOf_none (P : Prog τ ε) (u : Nat) (h : ∀ s ∈ P.streams, s.name
     exact absurd h2 (h s' h1)
 
 
+theorem routeTy_some {κ : Type} [DecidableEq κ] (streams : List (SDecl κ)) (t : κ) (q : Nat)
+    (h : routeTy streams t = some q) :
+    ∃ sd ∈ streams, sd.src = t ∧ ownerOf streams t ≠ some sd.ctx ∧ sd.ctx = q := by
+  unfold routeTy at h
+  rw [Option.map_eq_some_iff] at h
+  obtain ⟨sd, hl, hq⟩ := h
+  have hm := List.mem_of_getLast? hl
+  rw [List.mem_filter] at hm
+  have h2 := of_decide_eq_true hm.2
+  exact ⟨sd, hm.1, h2.1, h2.2, hq⟩
+
 section final
 variable (P : Prog τ ε) (net : Net σ ε) (hpn : ProgNet P net) (inputs : List ε) (σ0 : Nat → σ)
   (heng : ∀ c, c < net.n → EngineOK P net (σ0 c) c)
   (hraw : ∀ e ∈ inputs, ∀ sd ∈ P.streams, P.ty e ≠ sd.name)
   (s : St σ ε) (hr : Reach net (init inputs σ0) s)
-
-include heng hr in
-theorem fwd_owner (c : Nat) (e : ε) (d : Option Nat) (k : Bool) (h : Obs.fwd c e d k ∈ s.log) :
-    ∃ sd ∈ P.streams, sd.ctx = c ∧ P.ty e = sd.name := by
-  have hinv := finv_reach net inputs σ0 s hr
-  have hc : c < net.n := (hinv.wf _ h).2
-  have hm : e ∈ outOf s.log c := by
-    simp only [outOf, List.mem_filterMap]; exact ⟨_, h, by simp [outOfOf]⟩
-  have : e ∈ engRun net c (σ0 c) (rcvd s.log c) := by
-    rw [← (hinv.eng c).1]; exact List.mem_append_left _ hm
-  exact (heng c hc (rcvd s.log c)).1 e this
 
 include hr in
 theorem got_src (q : Nat) (src : Src) (e : ε) (h : Obs.got q src e ∈ s.log) :
@@ -832,7 +832,45 @@ theorem got_src (q : Nat) (src : Src) (e : ε) (h : Obs.got q src e ∈ s.log) :
         · simp at hoe
   | _ => simp [enqOf] at hoe
 
-include hpn heng hr in
+include hpn hraw hr in
+theorem rcvd_not_owned (c : Nat) : ∀ x ∈ rcvd s.log c, ownerOf P.streams (P.ty x) ≠ some c := by
+  intro x hx
+  have hinv := finv_reach net inputs σ0 s hr
+  simp only [rcvd, List.mem_filterMap] at hx
+  obtain ⟨o, ho, hox⟩ := hx
+  cases o with
+  | got q src e =>
+    simp only [rcvdOf] at hox
+    split at hox
+    · rename_i hqc; injection hox with hox; subst hox; subst hqc
+      rcases got_src net inputs σ0 s hr q src e ho with ⟨_, hin⟩ | ⟨c'', _, hf⟩
+      · rw [ownerOf_none P (P.ty e) (fun sd hsd hn => hraw e hin sd hsd hn.symm)]; simp
+      · have hw := (hinv.wf _ hf).1
+        simp only [tgt, hpn.route e] at hw
+        cases hrt : routeTy P.streams (P.ty e) with
+        | none => simp [hrt] at hw
+        | some q' =>
+          simp only [hrt] at hw
+          split at hw
+          · injection hw with hw; subst hw
+            obtain ⟨sd, _, _, hne, hq'⟩ := routeTy_some P.streams (P.ty e) _ hrt
+            rw [← hq']; exact hne
+          · simp at hw
+    · simp at hox
+  | _ => simp [rcvdOf] at hox
+
+include hpn heng hraw hr in
+theorem fwd_owner (c : Nat) (e : ε) (d : Option Nat) (k : Bool) (h : Obs.fwd c e d k ∈ s.log) :
+    ∃ sd ∈ P.streams, sd.ctx = c ∧ P.ty e = sd.name := by
+  have hinv := finv_reach net inputs σ0 s hr
+  have hc : c < net.n := (hinv.wf _ h).2
+  have hm : e ∈ outOf s.log c := by
+    simp only [outOf, List.mem_filterMap]; exact ⟨_, h, by simp [outOfOf]⟩
+  have : e ∈ engRun net c (σ0 c) (rcvd s.log c) := by
+    rw [← (hinv.eng c).1]; exact List.mem_append_left _ hm
+  exact (heng c hc (rcvd s.log c) (rcvd_not_owned P net hpn inputs σ0 hraw s hr c)).1 e this
+
+include hpn heng hraw hr in
 theorem out_filter_stream (sd : SDecl Nat) (hsd : sd ∈ P.streams) :
     s.out.filter (fun e => P.ty e = sd.name) = (outOf s.log sd.ctx).filter (fun e => P.ty e = sd.name) := by
   have hinv := finv_reach net inputs σ0 s hr
@@ -845,7 +883,7 @@ theorem out_filter_stream (sd : SDecl Nat) (hsd : sd ∈ P.streams) :
     · simp [allOutOf, outOfOf, hc]
     · have hty : P.ty e ≠ sd.name := by
         intro hty
-        obtain ⟨sd', hsd', hc', hn'⟩ := fwd_owner P net inputs σ0 heng s hr c' e d k ho
+        obtain ⟨sd', hsd', hc', hn'⟩ := fwd_owner P net hpn inputs σ0 heng hraw s hr c' e d k ho
         have := hpn.names sd' hsd' sd hsd (by rw [← hn', hty])
         subst this; exact hc hc'.symm
       simp [allOutOf, outOfOf, hc, Option.filter, hty]
@@ -873,14 +911,14 @@ theorem network_kahn (hns : ∀ sd ∈ P.streams, starved P.streams sd = false) 
   · intro sd hsd
     have hc : sd.ctx < net.n := hpn.ctxs sd hsd
     simp only [hany sd hsd, if_true]
-    rw [out_filter_stream P net hpn inputs σ0 heng s hr sd hsd]
+    rw [out_filter_stream P net hpn inputs σ0 heng hraw s hr sd hsd]
     have hrun : outOf s.log sd.ctx = engRun net sd.ctx (σ0 sd.ctx) (rcvd s.log sd.ctx) := by
       have := (hinv.eng sd.ctx).1; rw [(hq sd.ctx hc).2] at this; simpa using this
-    rw [hrun, (heng sd.ctx hc (rcvd s.log sd.ctx)).2 sd hsd rfl]
+    rw [hrun, (heng sd.ctx hc (rcvd s.log sd.ctx) (rcvd_not_owned P net hpn inputs σ0 hraw s hr sd.ctx)).2 sd hsd rfl]
     congr 1
     by_cases ho : ownerOf P.streams sd.src = some sd.ctx
     · obtain ⟨su, hsu, hun, huc⟩ := mem_of_ownerOf P sd.src sd.ctx ho
-      have h1 := out_filter_stream P net hpn inputs σ0 heng s hr su hsu
+      have h1 := out_filter_stream P net hpn inputs σ0 heng hraw s hr su hsu
       rw [hun, huc, hrun] at h1
       have := hany su hsu; rw [hun] at this
       simp [ho, this, h1]
@@ -906,7 +944,7 @@ theorem network_kahn (hns : ∀ sd ∈ P.streams, starved P.streams sd = false) 
               · have hsrc : src = .ctx su.ctx := by
                   rcases got_src net inputs σ0 s hr q src e hom with ⟨_, hin'⟩ | ⟨c'', hs'', hf''⟩
                   · exact absurd (hty.trans hun.symm) (hraw e hin' su hsu)
-                  · obtain ⟨sd', hsd', hc', hn'⟩ := fwd_owner P net inputs σ0 heng s hr c'' e _ _ hf''
+                  · obtain ⟨sd', hsd', hc', hn'⟩ := fwd_owner P net hpn inputs σ0 heng hraw s hr c'' e _ _ hf''
                     have := hpn.names sd' hsd' su hsu (by rw [← hn', hty, hun])
                     subst this; rw [hs'', hc']
                 simp [rcvdOf, consOf, hqc, hsrc]
@@ -931,7 +969,7 @@ theorem network_kahn (hns : ∀ sd ∈ P.streams, starved P.streams sd = false) 
             · cases dst <;> simp [sentOf, outOfOf, hcc]
           | _ => simp [sentOf, outOfOf]
         rw [e1, e2, ← sent_eq_enq_of_noDrop _ _ _ hnd, e3]
-        have h1 := out_filter_stream P net hpn inputs σ0 heng s hr su hsu
+        have h1 := out_filter_stream P net hpn inputs σ0 heng hraw s hr su hsu
         rw [hun] at h1; exact h1.symm
       · have hno : ∀ su ∈ P.streams, su.name ≠ sd.src := fun su hsu hn => hu ⟨su, hsu, hn⟩
         have hanyu : P.streams.any (fun sd' => sd'.name == sd.src) = false := by
@@ -948,7 +986,7 @@ theorem network_kahn (hns : ∀ sd ∈ P.streams, starved P.streams sd = false) 
               · have hsrc : src = .ingress := by
                   rcases got_src net inputs σ0 s hr q src e hom with ⟨hs', _⟩ | ⟨c'', hs'', hf''⟩
                   · exact hs'
-                  · obtain ⟨sd', hsd', _, hn'⟩ := fwd_owner P net inputs σ0 heng s hr c'' e _ _ hf''
+                  · obtain ⟨sd', hsd', _, hn'⟩ := fwd_owner P net hpn inputs σ0 heng hraw s hr c'' e _ _ hf''
                     exact absurd (hn'.symm.trans hty) (hno sd' hsd')
                 simp [rcvdOf, consOf, hqc, hsrc]
               · simp only [rcvdOf, consOf, hqc, Option.filter]; (repeat' split) <;> simp_all
@@ -978,5 +1016,308 @@ theorem network_kahn (hns : ∀ sd ∈ P.streams, starved P.streams sd = false) 
         rw [e1, e2, e3, e4]; simp
 
 end final
+
+/-! ## the engine (`process_inner`) meets the engine specification -/
+
+theorem run_append (f : SFun τ ε) (xs ys : List ε) : ∀ t,
+    f.run t (xs ++ ys) = f.run t xs ++ f.run (f.runSt t xs) ys := by
+  induction xs with
+  | nil => intro t; simp [SFun.run, SFun.runSt]
+  | cons x xs ih => intro t; simp [SFun.run, SFun.runSt, ih, List.append_assoc]
+
+theorem runSt_append (f : SFun τ ε) (xs ys : List ε) : ∀ t,
+    f.runSt t (xs ++ ys) = f.runSt (f.runSt t xs) ys := by
+  induction xs with
+  | nil => intro t; simp [SFun.runSt]
+  | cons x xs ih => intro t; simp [SFun.runSt, ih]
+
+theorem flatMap_congr' {α β : Type} (l : List α) (f g : α → List β) (h : ∀ a ∈ l, f a = g a) :
+    l.flatMap f = l.flatMap g := by
+  induction l with
+  | nil => rfl
+  | cons a l ih =>
+    simp only [List.flatMap_cons]
+    rw [h a (List.mem_cons_self ..), ih (fun b hb => h b (List.mem_cons_of_mem _ hb))]
+
+/-- well-formed program: distinct stream names, every stream emits events of its own type -/
+structure ProgWF (P : Prog τ ε) : Prop where
+  names : P.streams.Pairwise (fun a b => a.name ≠ b.name)
+  typed : ∀ sd ∈ P.streams, ∀ t x, ∀ o ∈ ((P.fn sd.name).step t x).2, P.ty o = sd.name
+
+/-- the fold of `applyEv` over a list of streams with distinct names -/
+theorem applyEv_fold (P : Prog τ ε) (x : ε) (L : List (SDecl Nat))
+    (hd : L.Pairwise (fun a b => a.name ≠ b.name)) : ∀ (st : Nat → τ) (acc : List ε),
+    let r := L.foldl (fun (acc : (Nat → τ) × List ε) sd =>
+      let r := (P.fn sd.name).step (acc.1 sd.name) x
+      (upd acc.1 sd.name r.1, acc.2 ++ r.2)) (st, acc)
+    r.2 = acc ++ L.flatMap (fun sd => ((P.fn sd.name).step (st sd.name) x).2) ∧
+    ∀ n, r.1 n = if (∃ sd ∈ L, sd.name = n) then ((P.fn n).step (st n) x).1 else st n := by
+  induction L with
+  | nil => intro st acc; simp
+  | cons sd L ih =>
+    intro st acc
+    have hd' := (List.pairwise_cons.1 hd)
+    have := ih hd'.2 (upd st sd.name ((P.fn sd.name).step (st sd.name) x).1) (acc ++ ((P.fn sd.name).step (st sd.name) x).2)
+    simp only [List.foldl_cons]
+    obtain ⟨h1, h2⟩ := this
+    constructor
+    · rw [h1]
+      simp only [List.flatMap_cons, List.append_assoc]
+      congr 2
+      apply flatMap_congr'
+      intro sd' hsd'
+      have hne : sd'.name ≠ sd.name := fun h => hd'.1 sd' hsd' h.symm
+      rw [upd_other _ _ _ _ hne]
+    · intro n
+      rw [h2 n]
+      by_cases hn : n = sd.name
+      · subst hn
+        have hnot : ¬ ∃ sd' ∈ L, sd'.name = sd.name := fun ⟨sd', hm, he⟩ => hd'.1 sd' hm he.symm
+        simp [hnot]
+      · rw [upd_other _ _ _ _ hn]
+        have : (∃ sd' ∈ sd :: L, sd'.name = n) ↔ (∃ sd' ∈ L, sd'.name = n) := by
+          constructor
+          · rintro ⟨sd', hm, he⟩
+            rcases List.mem_cons.1 hm with h | h
+            · subst h; exact absurd he.symm hn
+            · exact ⟨sd', h, he⟩
+          · rintro ⟨sd', hm, he⟩; exact ⟨sd', List.mem_cons_of_mem _ hm, he⟩
+        simp only [this]
+
+theorem pairwise_names_inj (l : List (SDecl Nat)) (h : l.Pairwise (fun a b => a.name ≠ b.name)) :
+    ∀ s1 ∈ l, ∀ s2 ∈ l, s1.name = s2.name → s1 = s2 := by
+  induction l with
+  | nil => intro s1 h1; simp at h1
+  | cons a l ih =>
+    intro s1 h1 s2 h2 hn
+    have hp := List.pairwise_cons.1 h
+    rcases List.mem_cons.1 h1 with e1 | e1 <;> rcases List.mem_cons.1 h2 with e2 | e2
+    · rw [e1, e2]
+    · subst e1; exact absurd hn (hp.1 s2 e2)
+    · subst e2; exact absurd hn.symm (hp.1 s1 e1)
+    · exact ih hp.2 s1 e1 s2 e2 hn
+
+theorem names_inj (P : Prog τ ε) (hwf : ProgWF P) :
+    ∀ s1 ∈ P.streams, ∀ s2 ∈ P.streams, s1.name = s2.name → s1 = s2 :=
+  pairwise_names_inj P.streams hwf.names
+
+/-- of the outputs of a list of streams, those typed like `sd` are `sd`'s -/
+theorem filter_flatMap_stream (P : Prog τ ε) (hwf : ProgWF P) (sd : SDecl Nat) (hsd : sd ∈ P.streams)
+    (g : SDecl Nat → List ε) (L : List (SDecl Nat)) (hL : ∀ a ∈ L, a ∈ P.streams)
+    (hd : L.Pairwise (fun a b => a.name ≠ b.name)) (hg : ∀ a ∈ L, ∀ o ∈ g a, P.ty o = a.name) :
+    (L.flatMap g).filter (fun e => P.ty e = sd.name) = if sd ∈ L then g sd else [] := by
+  induction L with
+  | nil => simp
+  | cons a L ih =>
+    have hp := List.pairwise_cons.1 hd
+    have ih' := ih (fun b hb => hL b (List.mem_cons_of_mem _ hb)) hp.2 (fun b hb => hg b (List.mem_cons_of_mem _ hb))
+    simp only [List.flatMap_cons, List.filter_append, ih']
+    by_cases ha : a = sd
+    · subst ha
+      have hnot : a ∉ L := fun hm => hp.1 a hm rfl
+      have hall : (g a).filter (fun e => P.ty e = a.name) = g a := by
+        apply List.filter_eq_self.2
+        intro o ho; simpa using hg a (List.mem_cons_self ..) o ho
+      simp [hnot, hall]
+    · have hne : a.name ≠ sd.name := fun hn => ha (names_inj P hwf a (hL a (List.mem_cons_self ..)) sd hsd hn)
+      have hnone : (g a).filter (fun e => P.ty e = sd.name) = [] := by
+        apply List.filter_eq_nil_iff.2
+        intro o ho
+        have := hg a (List.mem_cons_self ..) o ho
+        simp [this, hne]
+      have hmem : sd ∈ a :: L ↔ sd ∈ L := by
+        constructor
+        · intro h; rcases List.mem_cons.1 h with h | h
+          · exact absurd h.symm ha
+          · exact h
+        · exact List.mem_cons_of_mem _
+      simp [hnone, hmem]
+
+theorem applyEv_spec (P : Prog τ ε) (hwf : ProgWF P) (c : Nat) (st : Nat → τ) (x : ε) :
+    (∀ o ∈ (applyEv P c st x).2, ∃ sd ∈ P.streams, sd.ctx = c ∧ P.ty o = sd.name) ∧
+    ∀ sd ∈ P.streams, sd.ctx = c →
+      (applyEv P c st x).2.filter (fun e => P.ty e = sd.name) =
+        (P.fn sd.name).run (st sd.name) ([x].filter (fun e => P.ty e = sd.src)) ∧
+      (applyEv P c st x).1 sd.name = (P.fn sd.name).runSt (st sd.name) ([x].filter (fun e => P.ty e = sd.src)) := by
+  have hLd : (P.streams.filter (fun sd => decide (sd.ctx = c ∧ sd.src = P.ty x))).Pairwise (fun a b => a.name ≠ b.name) :=
+    hwf.names.sublist List.filter_sublist
+  have hfold := applyEv_fold P x _ hLd st []
+  simp only [List.nil_append] at hfold
+  obtain ⟨h1, h2⟩ := hfold
+  have hLmem : ∀ a ∈ P.streams.filter (fun sd => decide (sd.ctx = c ∧ sd.src = P.ty x)), a ∈ P.streams :=
+    fun a ha => (List.mem_filter.1 ha).1
+  constructor
+  · intro o ho
+    unfold applyEv at ho
+    rw [h1] at ho
+    simp only [List.mem_flatMap] at ho
+    obtain ⟨sd, hsd, hos⟩ := ho
+    have hm := List.mem_filter.1 hsd
+    have hc := of_decide_eq_true hm.2
+    exact ⟨sd, hm.1, hc.1, hwf.typed sd hm.1 _ _ o hos⟩
+  · intro sd hsd hc
+    unfold applyEv
+    rw [h1, h2 sd.name]
+    rw [filter_flatMap_stream P hwf sd hsd _ _ hLmem hLd
+      (fun a ha o ho => hwf.typed a (hLmem a ha) _ _ o ho)]
+    by_cases hsrc : sd.src = P.ty x
+    · have hin : sd ∈ P.streams.filter (fun sd => decide (sd.ctx = c ∧ sd.src = P.ty x)) := by
+        simp [List.mem_filter, hsd, hc, hsrc]
+      have hex : ∃ sd' ∈ P.streams.filter (fun sd => decide (sd.ctx = c ∧ sd.src = P.ty x)), sd'.name = sd.name :=
+        ⟨sd, hin, rfl⟩
+      rw [if_pos hin, if_pos hex]
+      have hd : decide (P.ty x = sd.src) = true := by simp [hsrc]
+      simp [List.filter_cons, hd, SFun.run, SFun.runSt]
+    · have hin : sd ∉ P.streams.filter (fun sd => decide (sd.ctx = c ∧ sd.src = P.ty x)) := by
+        simp [List.mem_filter, hsrc]
+      have hex : ¬ ∃ sd' ∈ P.streams.filter (fun sd => decide (sd.ctx = c ∧ sd.src = P.ty x)), sd'.name = sd.name := by
+        rintro ⟨sd', hm, hn⟩
+        have := names_inj P hwf sd' (hLmem sd' hm) sd hsd hn
+        subst this; exact hin hm
+      have hne : ¬ (P.ty x = sd.src) := fun h => hsrc h.symm
+      rw [if_neg hin, if_neg hex]
+      have hd : decide (P.ty x = sd.src) = false := by simp [hne]
+      simp [List.filter_cons, hd, SFun.run, SFun.runSt]
+
+/-- what a piece of engine work (`applyList`, `levels`) must satisfy: it emits only events of the
+context's streams, and each stream of the context transduces the events of its source type among
+`handled`, continuing from its current state -/
+def WorkSpec (P : Prog τ ε) (c : Nat) (st : Nat → τ) (handled : List ε) (r : (Nat → τ) × List ε) : Prop :=
+  (∀ o ∈ r.2, ∃ sd ∈ P.streams, sd.ctx = c ∧ P.ty o = sd.name) ∧
+  ∀ sd ∈ P.streams, sd.ctx = c →
+    r.2.filter (fun e => P.ty e = sd.name) =
+      (P.fn sd.name).run (st sd.name) (handled.filter (fun e => P.ty e = sd.src)) ∧
+    r.1 sd.name = (P.fn sd.name).runSt (st sd.name) (handled.filter (fun e => P.ty e = sd.src))
+
+theorem applyList_spec (P : Prog τ ε) (hwf : ProgWF P) (c : Nat) (xs : List ε) : ∀ st : Nat → τ,
+    WorkSpec P c st xs (applyList P c st xs) := by
+  induction xs with
+  | nil =>
+    intro st
+    refine ⟨by simp [applyList], fun sd _ _ => by simp [applyList, SFun.run, SFun.runSt]⟩
+  | cons x xs ih =>
+    intro st
+    have h1 := applyEv_spec P hwf c st x
+    have h2 := ih (applyEv P c st x).1
+    refine ⟨?_, ?_⟩
+    · intro o ho
+      simp only [applyList, List.mem_append] at ho
+      rcases ho with ho | ho
+      · exact h1.1 o ho
+      · exact h2.1 o ho
+    · intro sd hsd hc
+      obtain ⟨a1, a2⟩ := h1.2 sd hsd hc
+      obtain ⟨b1, b2⟩ := h2.2 sd hsd hc
+      have hsplit : (x :: xs).filter (fun e => P.ty e = sd.src) =
+          [x].filter (fun e => P.ty e = sd.src) ++ xs.filter (fun e => P.ty e = sd.src) := by
+        rw [← List.filter_append]; rfl
+      simp only [applyList, List.filter_append]
+      rw [hsplit, run_append, runSt_append, a1, b1, b2, a2]
+      exact ⟨rfl, rfl⟩
+
+theorem levels_spec (P : Prog τ ε) (hwf : ProgWF P) (c : Nat) (f : Nat) : ∀ (st : Nat → τ) (xs : List ε),
+    levelsDone P c f st xs = true →
+    WorkSpec P c st (xs ++ (levels P c f st xs).2) (levels P c f st xs) := by
+  induction f with
+  | zero =>
+    intro st xs hd
+    simp only [levelsDone, List.isEmpty_iff] at hd
+    subst hd
+    refine ⟨by simp [levels], fun sd _ _ => by simp [levels, SFun.run, SFun.runSt]⟩
+  | succ f ih =>
+    intro st xs hd
+    simp only [levelsDone] at hd
+    have h1 := applyList_spec P hwf c xs st
+    have h2 := ih (applyList P c st xs).1 (applyList P c st xs).2 hd
+    refine ⟨?_, ?_⟩
+    · intro o ho
+      simp only [levels, List.mem_append] at ho
+      rcases ho with ho | ho
+      · exact h1.1 o ho
+      · exact h2.1 o ho
+    · intro sd hsd hc
+      obtain ⟨a1, a2⟩ := h1.2 sd hsd hc
+      obtain ⟨b1, b2⟩ := h2.2 sd hsd hc
+      simp only [levels, List.filter_append] at b1 b2 ⊢
+      rw [run_append, runSt_append, a1, ← a2, b1, b2]
+      simp only [run_append, runSt_append]
+      first | exact ⟨rfl, rfl⟩ | trivial | simp
+
+theorem ownerOf_of_mem' (P : Prog τ ε) (hwf : ProgWF P) (s : SDecl Nat) (hs : s ∈ P.streams) :
+    ownerOf P.streams s.name = some s.ctx := by
+  unfold ownerOf
+  cases hf : P.streams.find? (fun s' => decide (s'.name = s.name)) with
+  | none =>
+    have := List.find?_eq_none.1 hf s hs
+    simp at this
+  | some s' =>
+    have h1 := List.mem_of_find?_eq_some hf
+    have h2 := List.find?_some hf
+    simp at h2
+    rw [names_inj P hwf s' h1 s hs h2]; rfl
+
+theorem bfs_engine_spec (P : Prog τ ε) (hwf : ProgWF P) (n cap : Nat) (blocking : Bool) (fuel c : Nat)
+    (hdepth : ∀ st x, levelsDone P c fuel st [x] = true) (X : List ε) : ∀ st : Nat → τ,
+    (∀ x ∈ X, ownerOf P.streams (P.ty x) ≠ some c) →
+    (∀ o ∈ engRun (progNet P n cap blocking fuel) c st X, ∃ sd ∈ P.streams, sd.ctx = c ∧ P.ty o = sd.name) ∧
+    ∀ sd ∈ P.streams, sd.ctx = c →
+      (engRun (progNet P n cap blocking fuel) c st X).filter (fun e => P.ty e = sd.name) =
+        (P.fn sd.name).run (st sd.name)
+          (if ownerOf P.streams sd.src = some c
+           then (engRun (progNet P n cap blocking fuel) c st X).filter (fun e => P.ty e = sd.src)
+           else X.filter (fun e => P.ty e = sd.src)) := by
+  induction X with
+  | nil =>
+    intro st _
+    refine ⟨by simp [engRun], fun sd _ _ => ?_⟩
+    split <;> simp [engRun, SFun.run]
+  | cons x X ih =>
+    intro st hX
+    have hx := hX x (List.mem_cons_self ..)
+    have hspec := levels_spec P hwf c fuel st [x] (hdepth st x)
+    have hrest := ih (levels P c fuel st [x]).1 (fun y hy => hX y (List.mem_cons_of_mem _ hy))
+    have hE : engRun (progNet P n cap blocking fuel) c st (x :: X) =
+        (levels P c fuel st [x]).2 ++ engRun (progNet P n cap blocking fuel) c (levels P c fuel st [x]).1 X := rfl
+    rw [hE]
+    refine ⟨?_, ?_⟩
+    · intro o ho
+      rcases List.mem_append.1 ho with ho | ho
+      · exact hspec.1 o ho
+      · exact hrest.1 o ho
+    · intro sd hsd hc
+      obtain ⟨a1, a2⟩ := hspec.2 sd hsd hc
+      have b1 := hrest.2 sd hsd hc
+      rw [List.filter_append, a1, b1, a2, ← run_append]
+      congr 1
+      by_cases ho : ownerOf P.streams sd.src = some c
+      · simp only [ho, if_true]
+        have hxs : [x].filter (fun e => P.ty e = sd.src) = [] := by
+          apply List.filter_eq_nil_iff.2
+          intro y hy
+          simp only [List.mem_singleton] at hy; subst hy
+          intro hty
+          have hty' : P.ty y = sd.src := by simpa using hty
+          exact hx (by rw [hty']; exact ho)
+        rw [List.filter_append, List.filter_append, hxs]; rfl
+      · simp only [ho, if_false]
+        have hes : (levels P c fuel st [x]).2.filter (fun e => P.ty e = sd.src) = [] := by
+          apply List.filter_eq_nil_iff.2
+          intro o hom hty
+          have hty' : P.ty o = sd.src := by simpa using hty
+          obtain ⟨sd', hsd', hc', hn'⟩ := hspec.1 o hom
+          have := ownerOf_of_mem' P hwf sd' hsd'
+          rw [← hn', hty', hc'] at this
+          exact ho this
+        rw [List.filter_append, hes]
+        simp only [List.filter_cons, List.filter_nil, List.append_nil]
+        split <;> simp
+
+/-- `process_inner` on the context's share of a well-formed program meets the engine specification,
+as long as the depth limit never cuts a chain off -/
+theorem bfs_engineOK (P : Prog τ ε) (hwf : ProgWF P) (n cap : Nat) (blocking : Bool) (fuel c : Nat)
+    (hdepth : ∀ st x, levelsDone P c fuel st [x] = true) :
+    EngineOK P (progNet P n cap blocking fuel) (progInit P c) c := by
+  intro X hX
+  exact bfs_engine_spec P hwf n cap blocking fuel c hdepth X (progInit P c) hX
 
 end Varpulis.Ctx
